@@ -2210,6 +2210,48 @@ def run_ref_oracle(ck):
     ck.cov["ref_oracle"] = {"kinds": len(F.KINDS), "problems": len(probs)}
 
 
+def type_attr_cases():
+    """TYPE_PROTO attributes (`optional(type=…)`): (description, spox type, expected decoded TypeProto)."""
+    import numpy as np
+
+    from spox import Optional as SOptional, Sequence as SSequence, Tensor
+
+    E = W.ONNX_ENUM
+    return [
+        ("Tensor(float32, (2,))", Tensor(np.float32, (2,)), ("tensor", E["float32"], [2])),
+        ("Tensor(int64, ())", Tensor(np.int64, ()), ("tensor", E["int64"], [])),
+        ("Tensor(str, ('N', None, 3))", Tensor(np.str_, ("N", None, 3)), ("tensor", E["str"], ["N", None, 3])),
+        ("Tensor(bool, None)", Tensor(np.bool_, None), ("tensor", E["bool"], None)),
+        ("Tensor(uint64, (0,))", Tensor(np.uint64, (0,)), ("tensor", E["uint64"], [0])),
+        ("Sequence(Tensor(float16, (1, 'M')))", SSequence(Tensor(np.float16, (1, "M"))), ("seq", ("tensor", E["float16"], [1, "M"]))),
+        ("Sequence(Tensor(int8, None))", SSequence(Tensor(np.int8, None)), ("seq", ("tensor", E["int8"], None))),
+    ]
+
+
+def type_attr_case(desc):
+    import spox.opset.ai.onnx.v17 as op
+
+    d, t, want = next(c for c in type_attr_cases() if c[0] == desc)
+    try:
+        a = _first_attr_tensor(_build_bytes(op.optional(type=t)), "Optional", "type")
+    except Exception as e:  # noqa: BLE001
+        return f"optional(type={d}) raised {type(e).__name__}: {str(e)[:120]}"
+    if a is None or a["name"] != "type" or a["type"] != W.ATTR_TYPE["TYPE_PROTO"] or a["tp"] is None:
+        return f"optional(type={d}): attribute {None if a is None else (a['name'], a['type'])}, expected a TYPE_PROTO named 'type'"
+    got = W.type_proto(a["tp"])
+    if got != want:
+        return f"optional(type={d}): embedded type {got}, handed over {want}"
+    return None
+
+
+def run_type_attr_oracle(ck):
+    for d, _, _ in type_attr_cases():
+        ck.count(("type-attr", d))
+        bad = type_attr_case(d)
+        if bad:
+            ck.failure(f"attr-kind:optional:type:{d.split('(')[0]}", bad, {"kind": "type_attr", "desc": d})
+
+
 def _site_rows(sinfo):
     import collections
 
@@ -2384,6 +2426,10 @@ def run(ck: core.Check):
     run_oracle(ck)
     ck.log("oracle done")
     try:
+        run_type_attr_oracle(ck)
+    except Exception as e:  # noqa: BLE001
+        ck.broken("correspondence", "C10 TYPE_PROTO attribute oracle not runnable", f"{type(e).__name__}: {e}"[:300])
+    try:
         run_ref_oracle(ck)
     except Exception as e:  # noqa: BLE001
         ck.broken("correspondence", "C10 attribute-reference oracle not runnable", f"{type(e).__name__}: {e}"[:300])
@@ -2480,6 +2526,10 @@ def replay(ck: core.Check, doc) -> bool:
         for part, what in problems:
             print(f"{site.name}: {what}")
         return bool(problems)
+    if kind == "type_attr":
+        bad = type_attr_case(case["desc"])
+        print(bad or "ok")
+        return bool(bad)
     if kind == "attr_ref":
         from harness import lib_c10fun as F
 
